@@ -145,7 +145,7 @@ def streams(ctx: lib.Ctx) -> None:
     max_size, depth = ctx.n(4, 5), 3
     small = list(G.exhaustive(max_size, depth))
     n_small_all = len(small)
-    cap = ctx.n(4000, 60000)
+    cap = ctx.n(4000, 20000)
     if len(small) > cap:
         # keep everything up to size 3 (quick) / 4 (thorough), sample the rest
         lim = 4 if ctx.thorough else 3
@@ -153,7 +153,7 @@ def streams(ctx: lib.Ctx) -> None:
         rest = [f for f in small if G.size_of(f) > lim]
         small = keep + rng.sample(rest, max(0, cap - len(keep)))
     flows += small
-    n_rand = ctx.n(1000, 12000)
+    n_rand = ctx.n(1000, 5000)
     for i in range(n_rand):
         r = rng.random()
         if r < 0.5:
